@@ -412,10 +412,10 @@ def cases(tier: str, seed: int) -> List[Case]:
             out.append(Case("h11", lab, {"kinds": list(kinds), "two": False}, timeout=60 if quick else 240, twin=True))
             take_two = (n <= 2) or ((not quick) and (idx + seed) % 3 == 0 and n == 3)
             if take_two:
-                out.append(Case("h11", lab + ":2", {"kinds": list(kinds), "two": True}, timeout=150 if quick else 600,
+                out.append(Case("h11", lab + ":2", {"kinds": list(kinds), "two": True}, timeout=150 if quick else 300,
                                 twin=(idx % 5 == 0)))
             if n <= 2 and (n == 1 or idx % 3 == 0 or not quick):
                 # the same diagnostics raised under catch_errors() and re-emitted
                 out.append(Case("h11", lab + ":caught", {"kinds": list(kinds), "two": n == 2, "caught": True},
-                                timeout=150 if quick else 600, twin=(idx % 5 == 0)))
+                                timeout=150 if quick else 300, twin=(idx % 5 == 0)))
     return out
